@@ -1,7 +1,9 @@
 import MoneroModel.Drv.Util
 import MoneroModel.Model.Len
 open Monero
-/-! Driver for the consensus codec (C01/C02): `c01_dec <T> [params] <hex>` → `err` | `ok <consumed> <re-encoded hex> <len>` -/
+/-! Driver for the consensus codec (C01/C02): `c01_dec <T> [params] <hex>` → `err` | `ok <consumed> <re-encoded hex> <len>`
+(primitive types `u8…u64 i8…i64 bool rcttype`: a fifth field, the decoded VALUE of the model — decimal, `-` in front of negatives,
+`true`/`false`, the RingCT type's number — so that the reading of the bytes, e.g. two's complement, is compared and not only the re-encoding) -/
 namespace Drv
 
 def showDecL {α} (b : Bytes) (enc : α → Bytes) (len : α → Nat) (r : Option (α × Bytes)) : String :=
@@ -10,6 +12,16 @@ def showDecL {α} (b : Bytes) (enc : α → Bytes) (len : α → Nat) (r : Optio
   | some (x, rest) => s!"ok {b.length - rest.length} {Hex.encode (enc x)} {len x}"
 def showDec {α} (b : Bytes) (enc : α → Bytes) (r : Option (α × Bytes)) : String :=
   showDecL b enc (fun x => (enc x).length) r
+
+/-- like `showDec`, with the decoded value as a fifth field -/
+def showDecV {α} (b : Bytes) (enc : α → Bytes) (shw : α → String) (r : Option (α × Bytes)) : String :=
+  match r with
+  | none => "err"
+  | some (x, rest) => s!"ok {b.length - rest.length} {Hex.encode (enc x)} {(enc x).length} {shw x}"
+def showNat (n : Nat) : String := toString n
+/-- decimal with a leading `-` for negatives (what Rust's `to_string` prints for `iN`) -/
+def showInt (i : Int) : String := match i with | .ofNat n => toString n | .negSucc n => "-" ++ toString (n + 1)
+def showBool (v : Bool) : String := if v then "true" else "false"
 
 /-- `deserialize` (strict) through the model's `strict`: `err` | `ok <re-encoded hex>` -/
 def showStrict {α} (enc : α → Bytes) (r : Option α) : String :=
@@ -57,22 +69,22 @@ def decByName (t : String) (b : Bytes) : Option String :=
   | "rangesig" => some (showDec b id (rangeSig b))
   | "bp" => some (showDecL b encBP lenBP (bp b))
   | "bpp" => some (showDecL b encBPP lenBPP (bpp b))
-  | "u8" => some (showDec b (encUintLE 1) (uintLE 1 b))
-  | "u16" => some (showDec b (encUintLE 2) (uintLE 2 b))
-  | "u32" => some (showDec b (encUintLE 4) (uintLE 4 b))
-  | "u64" => some (showDec b (encUintLE 8) (uintLE 8 b))
+  | "u8" => some (showDecV b (encUintLE 1) showNat (uintLE 1 b))
+  | "u16" => some (showDecV b (encUintLE 2) showNat (uintLE 2 b))
+  | "u32" => some (showDecV b (encUintLE 4) showNat (uintLE 4 b))
+  | "u64" => some (showDecV b (encUintLE 8) showNat (uintLE 8 b))
   | "vec_varint" => some (showDec b (encVec encVarint) (vec sizes.varint varint b))
   | "vec_key" => some (showDec b (encVec id) (vec sizes.key key b))
   | "vec_u8" => some (showDec b (encVec (fun x => [x])) (vec sizes.u8 u8 b))
   | "string" => some (showDecL b encString lenString (stringDec (fun bs => (String.fromUTF8? (ByteArray.mk bs.toArray)).isSome) b))
   | "vec_txin" => some (showDec b (encVec encTxIn) (vec sizes.txin txin b))
   | "vec_txout" => some (showDec b (encVec encTxOut) (vec sizes.txout txout b))
-  | "rcttype" => some (showDec b encRctType (rctType b))
-  | "bool" => some (showDec b encBool (boolDec b))
-  | "i8" => some (showDec b (encIntLE 1) (intLE 1 b))
-  | "i16" => some (showDec b (encIntLE 2) (intLE 2 b))
-  | "i32" => some (showDec b (encIntLE 4) (intLE 4 b))
-  | "i64" => some (showDec b (encIntLE 8) (intLE 8 b))
+  | "rcttype" => some (showDecV b encRctType showNat (rctType b))
+  | "bool" => some (showDecV b encBool showBool (boolDec b))
+  | "i8" => some (showDecV b (encIntLE 1) showInt (intLE 1 b))
+  | "i16" => some (showDecV b (encIntLE 2) showInt (intLE 2 b))
+  | "i32" => some (showDecV b (encIntLE 4) showInt (intLE 4 b))
+  | "i64" => some (showDecV b (encIntLE 8) showInt (intLE 8 b))
   -- `Box<[T]>` (encode.rs:537-564) is a separately written copy of the `Vec<T>` codec; `Vec<Hash>`, `MultisigOut { c : Vec<Key> }`
   | "box_key" => some (showDec b (encVec id) (vec sizes.key key b))
   | "vec_hash" => some (showDec b (encVec id) (vec sizes.key key b))
